@@ -44,8 +44,8 @@ Record pj_rest (c : connp) (txs : list (option tx)) (nx : nat) (inn : pj_in) : P
   jy_other : c_out_data_other_at_tx_end c = false }.
 (* ... before the response to transaction number pj_k w *)
 Definition pj_ready (w : pj_world) (c : connp) (t : tx) : Prop := pj_rest c (pj_txs w t) (pj_k w) (jw_in w).
-(* the request side is not working on transaction number pj_k w *)
-Definition pj_free (w : pj_world) : Prop := pj_intx (jw_in w) <> Some (pj_k w).
+(* the request side is not waiting for the response side *)
+Definition pj_free (w : pj_world) : Prop := (pj_instat (jw_in w) =? c_HTP_STREAM_DATA_OTHER)%Z = false.
 
 (* the world of the next response *)
 Definition pj_wnext (w : pj_world) (s : option tx) (post' : list (option tx)) : pj_world := mk_pj_world (jw_pre w ++ [s]) post' (jw_in w).
@@ -61,7 +61,7 @@ Proof.
   constructor; try assumption.
   - rewrite pj_wnext_k. exact A13.
   - rewrite pj_wnext_txs, A14, Ep. reflexivity.
-  - rewrite (pj_qin_intx c _ A16). exact Hfree.
+  - rewrite (pj_qin_instat c _ A16). exact Hfree.
 Qed.
 
 Lemma pj_forget_out c :
@@ -116,23 +116,23 @@ Proof.
   eexists. split; [reflexivity|].
   constructor; try assumption; try reflexivity; cbn; try lia.
   - rewrite app_nil_r. exact A3.
-  - rewrite (pj_qin_intx c _ A9). exact Hfree.
+  - rewrite (pj_qin_instat c _ A9). exact Hfree.
 Qed.
 
 (* RES_FINALIZE at the end of the chunk: the response is complete *)
 Lemma pj_finalize_end w c d t : pj_cinw w c d (length d) [] None RES_FINALIZE (Some RES_FINALIZE) None t ->
   t_res_cep t = c_HTP_COMPRESSION_NONE -> (t_response_transfer_coding t =? c_HTP_CODING_NO_BODY)%Z = false ->
-  (t_response_progress t =? c_HTP_RESPONSE_COMPLETE)%Z = false -> t_request_progress t = c_HTP_REQUEST_COMPLETE ->
+  (t_response_progress t =? c_HTP_RESPONSE_COMPLETE)%Z = false ->
   exists c', sr_iter cb g c = inr c' /\ pj_done w c' d (length d) [] (Some (sr_tcomplete t)).
 Proof.
-  intros H Hcep Hcod Hprog Hreq. pose proof H as [A1 A2 A3 A4 A5 A6 A7 A8 A9 A10 A11 A12 A13 A14 A15 A16 A17 A18 A19].
+  intros H Hcep Hcod Hprog. pose proof H as [A1 A2 A3 A4 A5 A6 A7 A8 A9 A10 A11 A12 A13 A14 A15 A16 A17 A18 A19].
   unfold sr_iter. rewrite A2. cbn [rs_state_fn]. unfold rs_RES_FINALIZE, rs_closed. rewrite (sg_live_closed _ A1). cbn [negb].
   rewrite (sr_peek c d A4 A5), A6.
   assert (Nn : nth_error d (length d) = None) by (apply nth_error_None; lia). rewrite Nn.
   set (c0 := rs_set_out (fun k => k <| k_next_byte := None |>) c).
   assert (H0 : pj_cinw w c0 d (length d) [] None RES_FINALIZE (Some RES_FINALIZE) None t) by (apply pj_cin_next; exact H).
   change (rs_nb c0) with (@None N). cbv iota.
-  destruct (pj_response_complete cb g Hcb Had c0 d _ _ _ t H0 Hcep Hcod Hprog Hreq) as (c1 & E1 & [B1 B2 B3 B4 B5 B6 B7 B8 B9 B10]). rewrite E1.
+  destruct (pj_response_complete cb g Hcb Had c0 d _ _ _ t H0 Hcep Hcod Hprog) as (c1 & E1 & [B1 B2 B3 B4 B5 B6 B7 B8 B9 B10]). rewrite E1.
   destruct H0 as [C1 C2 C3 C4 C5 C6 C7 C8 C9 C10 C11 C12 C13 C14 C15 C16 C17 C18 C19].
   rewrite B3, (sg_live_tunnel _ C1).
   unfold rs_handle_state_change. rewrite B4, C3, B5. cbn [res_state_eqb].
@@ -160,7 +160,6 @@ Hypothesis Wl : sr_status_ok ps s r = true.
 Hypothesis Okl : forallb sg_fl_ok ls = true.
 Hypothesis Hnp0 : sg_needs_pending ls = false.
 Hypothesis H09 : t_is_protocol_0_9 t0 = false.
-Hypothesis Hreq : t_request_progress t0 = c_HTP_REQUEST_COMPLETE.
 Let line0 := wr_ser_status_line ps s r.
 Let th0 := sr_th0 t0 line0.
 Let Tend := sr_lrun ls (None, th0).
@@ -195,14 +194,23 @@ Hypothesis Kfin : forall c d rd rw' fuel, okd d rw' -> pj_cin c d rd [] None RES
 
 Lemma qp_Tpre_cases : (n = 0%nat /\ Tpre = TH) \/ ((0 < n)%nat /\ Tpre = sr_body_add 0 (sr_body_add' n TH)).
 Proof. unfold Tpre. generalize TH. generalize n. intros m T. destruct m; [left|right]; split; try reflexivity. apply Nat.lt_0_succ. Qed.
+(* (nothing is assumed about the progress of the request: the response may be parsed while the request is in htp_connp_REQ_FINALIZE) *)
+Lemma qp_TH_facts k : t_res_cep (sr_body_add' k TH) = c_HTP_COMPRESSION_NONE /\ (t_response_transfer_coding (sr_body_add' k TH) =? c_HTP_CODING_NO_BODY)%Z = false /\
+  (t_response_progress (sr_body_add' k TH) =? c_HTP_RESPONSE_COMPLETE)%Z = false.
+Proof.
+  assert (P : t_response_progress Tend = c_HTP_RESPONSE_HEADERS).
+  { unfold Tend. destruct (sr_lrun_keep ls (None, th0)) as [A B]. cbn [snd] in B. destruct (sr_th0_keep t0 line0) as [C D]. fold th0 in D. rewrite B, D. reflexivity. }
+  destruct (sr_hdrs_tx_facts Tend n Hframe P) as (A & B & C & _). fold TH in A, B, C.
+  destruct (sr_body_add'_facts k TH) as (A' & B' & C' & _). rewrite A', B', C'. repeat split; assumption.
+Qed.
 Lemma qp_Tpre_facts : t_res_cep Tpre = c_HTP_COMPRESSION_NONE /\ (t_response_transfer_coding Tpre =? c_HTP_CODING_NO_BODY)%Z = false /\
-  (t_response_progress Tpre =? c_HTP_RESPONSE_COMPLETE)%Z = false /\ t_request_progress Tpre = c_HTP_REQUEST_COMPLETE /\
+  (t_response_progress Tpre =? c_HTP_RESPONSE_COMPLETE)%Z = false /\
   sr_tcomplete Tpre = sr_after_hdr n Tend.
 Proof.
-  split; [|split; [|split; [|split; [|reflexivity]]]].
+  split; [|split; [|split; [|reflexivity]]].
   all: destruct qp_Tpre_cases as [[_ E]|[_ E]]; rewrite E.
-  all: try (destruct (sr_TH_facts ps s r ls body t0 Hreq Hframe 0) as (A & B & C & D); assumption).
-  all: destruct (sr_TH_facts ps s r ls body t0 Hreq Hframe n) as (A & B & C & D); assumption.
+  all: try (destruct (qp_TH_facts 0) as (A & B & C); assumption).
+  all: destruct (qp_TH_facts n) as (A & B & C); assumption.
 Qed.
 
 (* ---- RES_BODY_IDENTITY_CL_KNOWN ---- *)
@@ -212,7 +220,7 @@ Lemma qp_run_body c d rd k (rw' : bytes) fuel : okd d rw' ->
   (8 * (length d - rd) + 14 <= fuel)%nat -> goal c fuel rw'.
 Proof.
   intros Hok H Hk Hl Hw Hf. pose proof (ji_rd _ _ _ _ _ _ _ _ _ H) as Hrd.
-  destruct (sr_TH_facts ps s r ls body t0 Hreq Hframe k) as (Fc & Fd & Fp & Fr).
+  destruct (qp_TH_facts k) as (Fc & Fd & Fp).
   assert (Lsk : length (skipn rd d) = (length d - rd)%nat) by apply skipn_length.
   assert (Lsb : length (skipn k body) = (n - k)%nat) by apply skipn_length.
   destruct fuel as [|f]; [lia|].
